@@ -71,14 +71,37 @@ def build(rnd):
     for key, m in model.items():           # as user code does in __init__: every property has a value before the object is exported
         init[key] = rnd.choice(SIG_VALUES[m['sig']])
         setattr(obj, m['attr'], init[key])
+    if Derived.__mro__[1] is Base and rnd.random() < 0.5:
+        # an object of the BASE class is exported too and asked - in vain, as it must be - for what only the derived class has;
+        # that refusal says nothing about objects of the derived class
+        bobj = Base('/org/verif/BaseProps')
+        bound_in_base = {m_['attr'] for m_ in model.values() if m_['attr'] in base_ns}
+        try:
+            for key, m_ in model.items():
+                if m_['attr'] in bound_in_base:
+                    setattr(bobj, m_['attr'], init[key])
+            handler.exportObject(bobj)
+            for (iname, pname), m_ in model.items():
+                if m_['attr'] not in bound_in_base:
+                    call(handler, conn, 'Get', 'ss', [iname, pname], path='/org/verif/BaseProps')
+                    call(handler, conn, 'Set', 'ssv', [iname, pname, init[(iname, pname)]], path='/org/verif/BaseProps')
+        except Exception:
+            pass                                 # what the base object itself does with these names is not the subject here
+    # values assigned BEFORE DBusObject.__init__ ran (a subclass __init__ that sets its properties first) are values all the same
+    if rnd.random() < 0.3:
+        early = Derived.__new__(Derived)
+        for key, m_ in model.items():
+            setattr(early, m_['attr'], init[key])
+        objects.DBusObject.__init__(early, '/org/verif/Props')
+        obj = early
     handler.exportObject(obj)
     del conn.sent[:]
     return handler, conn, obj, decl, model, init
 
 
-def call(handler, conn, member, sig, body):
+def call(handler, conn, member, sig, body, path='/org/verif/Props'):
     from txdbus import message
-    m = message.MethodCallMessage('/org/verif/Props', member, interface=PROPS_IFACE, signature=sig, body=body)
+    m = message.MethodCallMessage(path, member, interface=PROPS_IFACE, signature=sig, body=body)
     p = message.parseMessage(m.rawMessage, [])
     p.sender = ':1.8'
     del conn.sent[:]
